@@ -309,7 +309,12 @@ fn get_imsaak(
         hours = get_hours_adj_ext(&params_adj, top_astro_day, weather);
     }
 
-    hours[&Fajr].map(|x| to_prayer_time(&params_adj, Fajr, x))
+    // An Imsaak derived from Fajr by an interval because of an extreme Fajr is itself extreme.
+    hours[&Fajr].map(|x| {
+        let mut imsaak = to_prayer_time(&params_adj, Fajr, x);
+        imsaak.extreme = imsaak.extreme || fajr_extreme || imsaak_extreme;
+        imsaak
+    })
 }
 
 fn to_prayer_time(params: &Params, prayer: Prayer, prayer_hour: PrayerHour) -> PrayerTime {
